@@ -10,6 +10,48 @@ PY = "/venv/bin/python"
 
 # property -> (level, technique, level text, level note, design section)
 CHECKS = {
+    "C01": (
+        "exploration",
+        "property-based testing (Hypothesis): metamorphic relation simulate(pi(P)) == pi(simulate(P)) on all DAG nodes; plus exhaustive enumeration of all row orders of 12 small pointer shapes",
+        "Generated valid populations x drawn permutations / index labellings at every date stratum; both orders are really simulated for all ~320 nodes and compared on p_id (ids as partitions, dtype kind included). A finite block enumerates every row order of 12 hand-picked pointer shapes.",
+        "Valid populations per DESIGN.md 2.2; float tolerance 1e-9 relative for re-ordered additions.",
+        "3/C01",
+    ),
+    "C02": (
+        "exploration",
+        "property-based testing (Hypothesis): differential simulate(A++B)|A == simulate(A) and metamorphic relabelling of ids, all DAG nodes",
+        "Two generated closed populations with disjoint ids are simulated alone and interleaved; A is also simulated under an injective relabelling of p_id/hh_id. All nodes compared (ids as partitions).",
+        "A keeps its internal row order in the joint table (row-order dependence is C01). Id bounds 10^6 / 10^4.",
+        "3/C02",
+    ),
+    "C03": (
+        "exploration",
+        "property-based testing (Hypothesis) against a reference evaluation: raw scalar rule applied row by row to the production parent columns; dtype vs declared type",
+        "For every generated population and every scalar rule active at the date the production column is compared exactly with the raw Python rule evaluated per row, and its dtype kind with the return annotation.",
+        "The raw rules are the reference; aggregation / conversion / grouping nodes are covered by C11-C13.",
+        "3/C03",
+    ),
+    "C04": (
+        "exploration",
+        "property-based testing (Hypothesis): differential between target subsets / options (debug, minimal specification, dict vs DataFrame, extra columns)",
+        "A drawn target subset (incl. derived time-unit variants and automatic group sums) with drawn options is compared column by column with the all-node run of the same population; shape and column set of the result are checked.",
+        "Baseline is another real execution (all nodes + S).",
+        "3/C04",
+    ),
+    "C05": (
+        "exploration",
+        "property-based testing (Hypothesis): round trip - feed a node's own production column back as data, compare all other nodes, require the overlap warning",
+        "For drawn nodes of the DAG (every node over a run) the production column is supplied as data; the second run must not raise, must warn for overridden rules and must reproduce every other node.",
+        "The supplied column has exactly the dtype pandas returned.",
+        "3/C05",
+    ),
+    "C07": (
+        "exploration",
+        "differential testing against an independent reference model of the YAML semantics (exact Fraction schedules) over enumerated change dates, their neighbours, leap days and seeded random days; decorator-derived oracle for rules; within-stratum constancy",
+        "Every parameter leaf, rounding spec, schedule coefficient and the rule dictionary of set_up_policy_environment(d) is compared with a reference resolver written from GEP 3/5 over yaml.safe_load, on change dates +-1 day, leap days and random days from 1980 on.",
+        "The reference model is a second reading of the documentation; disagreements are triaged against GEP 3 before being reported.",
+        "3/C07",
+    ),
     "C08": (
         "exploration",
         "property-based testing (Hypothesis): generated valid populations x every date stratum; no-crash + structural oracle; sys.monitoring coverage measurement",
